@@ -33,6 +33,28 @@ def ctl_sweep(job):
         C["base_histories"] = C.get("base_histories", 0) + 1
         k = 0
         for mode in job.get("modes", ["pause", "cancel"]):
+            if mode == "pause_resume":
+                # pause and resume at once, before anything reports: the workflow is `resuming` with actions in flight and
+                # stays so until a task event takes it back to running; everything else runs its course
+                for pos in positions(base):
+                    for variant in range(4):
+                        k += 1
+                        if only and k != only[1]:
+                            continue
+                        run = explore.make_run(case, workloads.monitors(job.get("flags")), model=m)
+                        explore.play_script(run, base[:pos])
+                        if len(run.inflight) < 1:
+                            continue
+                        run.request(["pausing", "paused"][variant % 2])
+                        run.request(["resuming", "running"][variant // 2])
+                        C["insertion_points"] = C.get("insertion_points", 0) + 1
+                        C["pause_resume_runs"] = C.get("pause_resume_runs", 0) + 1
+                        explore.run_free(run, explore.Policy(pseed=h64(pseed, pos, variant), lazy_pct=[0, 50][variant % 2]), start=False)
+                        run.finish()
+                        out["evaluations"] += 1
+                        workloads.collect(out, job, run, m, (seed, k), nontriv_fn,
+                                          extra=dict(insert=dict(mode=mode, pos=pos, variant=variant)))
+                continue
             if mode == "pause_resume_pause":
                 # three requests in a row while actions are in flight: pause, resume before anything reports (the workflow
                 # is then `resuming` with actions in flight), pause again
